@@ -132,7 +132,7 @@ func filesHash(m map[string]string) string {
 	return hash(b.String())
 }
 
-var reStubField = regexp.MustCompile(`(?m)^\t\t\w+ func\(ctx context\.Context`)
+var reStubField = regexp.MustCompile(`(?m)^\t\t\w+\s+func\(ctx context\.Context`)
 
 var reSlotField = regexp.MustCompile(`(?m)^\t\tQ(\d+)\s+func\(ctx context\.Context(?:, a (\S+?))?(?:, b \S+)?\) \((\S+), error\)`)
 
